@@ -2,6 +2,7 @@ import NixModel.Pure.Flush
 import NixModel.Lemmas.C17Flush
 import NixModel.Lemmas.C17Open
 import NixModel.Lemmas.C17Late
+import NixModel.Lemmas.C17Multi
 
 /-!
 # C17 — `flush()` and `close()` make everything written so far survive a process kill
@@ -463,6 +464,62 @@ theorem C17_readonly_inert (w : World) (hd : Handle) (ho : w.handle = some hd)
             exact ih (closeW w hd) (Or.inr rfl)
         · rw [runBody_closed_world _ hn']
     exact key _ w (Or.inl ho)
+
+/-! ### several `File` objects on one path in the writer process (`Pure/FlushMulti.lean`) -/
+
+section multi
+open Nix.FlushMulti
+
+/-- `flush()` through ANY of the `File` objects the process holds on the path (whatever access it was opened
+with), then anything that writes nothing new — write-backs, flushes and closes through any object, further opens
+— and SIGKILL: the reopened file shows the state at that flush. `File.flush` is the regenerated body. -/
+theorem C17_multi_flush_durable (w : MWorld) (i : Nat) (c : Store) (tail : List MEv)
+    (ho : w.objs[i]? = some true) (hc : w.cache = some c) (hp : w.pending = none)
+    (hq : ∀ e ∈ tail, mquiet e = true) :
+    (mstep w (.flush i)).2 = none ∧ mreopenView (mrun (mstep w (.flush i)).1 tail) = some c := by
+  refine ⟨?_, mreopen_settled (mrun_settled tail hq (mrunBody_syncs i _ ho hc hp (by decide)))⟩
+  simp [mstep, Gen.fileFlushBody, mrunBody, mprim, ho, hc]
+
+/-- `close()` of ONE of the `File` objects — also while others stay open, so that the library keeps its file
+structure and nothing but the flush inside `File.close` writes the cache — is durable in the same sense. -/
+theorem C17_multi_close_durable (w : MWorld) (i : Nat) (c : Store) (tail : List MEv)
+    (ho : w.objs[i]? = some true) (hc : w.cache = some c) (hp : w.pending = none)
+    (hq : ∀ e ∈ tail, mquiet e = true) :
+    (mstep w (.close i)).2 = none ∧ mreopenView (mrun (mstep w (.close i)).1 tail) = some c := by
+  refine ⟨?_, mreopen_settled (mrun_settled tail hq (mrunBody_syncs i _ ho hc hp (by decide)))⟩
+  simp only [mstep, Gen.fileCloseBody, mrunBody, mprim, ho, hc]
+  by_cases hb : true ∈ w.objs.set i false <;> simp [hb]
+
+/-- neither is idle: with a second object open, a `close` that releases its object without the flush, and a
+`flush` that returns without reaching `H5Fflush`, both lose what was written. -/
+theorem C17_multi_unflushed_loses :
+    ∃ (w : MWorld) (c : Store), w.objs = [true, true] ∧ w.cache = some c ∧ w.pending = none ∧
+      mreopenView (mrunBody w 1 [.gcCollect, .h5close]).1 ≠ some c ∧
+      mreopenView (mrunBody w 1 []).1 ≠ some c := by
+  refine ⟨⟨Store.empty, some ((Write.put "a" "1").apply Store.empty), none, [true, true]⟩, _, rfl, rfl, rfl, ?_, ?_⟩
+  · intro h
+    have h1 : mreopenView (mrunBody ⟨Store.empty, some ((Write.put "a" "1").apply Store.empty), none, [true, true]⟩ 1
+        [.gcCollect, .h5close]).1 = some Store.empty := by
+      simp [mreopenView, mstep, mrunBody, mprim]
+    rw [h1] at h
+    have := congrFun (Option.some.inj h) "a"
+    simp [Store.empty, Write.apply] at this
+  · intro h
+    have h1 : mreopenView (mrunBody ⟨Store.empty, some ((Write.put "a" "1").apply Store.empty), none, [true, true]⟩ 1
+        []).1 = some Store.empty := by
+      simp [mreopenView, mstep, mrunBody]
+    rw [h1] at h
+    have := congrFun (Option.some.inj h) "a"
+    simp [Store.empty, Write.apply] at this
+
+/-- non-vacuity: two objects, writes through the second, which is closed while the first stays open -/
+example : ∃ w : MWorld, w.objs[1]? = some true ∧ w.objs[0]? = some true ∧ w.pending = none ∧
+    (∃ c, w.cache = some c ∧ c "a" = some "1") ∧ (mstep w (.close 1)).1.objs = [true, false] ∧
+    (mstep w (.close 1)).1.cache.isSome = true :=
+  ⟨mrun ⟨Store.empty, none, none, []⟩ [.openObj, .openObj, .write 1 (.put "a" "1")], by decide, by decide, rfl,
+   ⟨_, rfl, by decide⟩, by decide, by decide⟩
+
+end multi
 
 /-! ### non-vacuity: concrete worlds meeting the hypotheses -/
 
